@@ -37,7 +37,7 @@ SOFTWARE, EVEN IF ADVISED OF THE POSSIBILITY OF SUCH DAMAGE.
 
 #define EOL ((size_t) -1)
 
-#define YR_ARENA_FILE_VERSION 21
+#define YR_ARENA_FILE_VERSION 22
 
 #define YR_ARENA_NULL_REF  \
   (YR_ARENA_REF)           \
